@@ -451,3 +451,40 @@ package tbtc
 //@   assert call:withCancelOnBlock@2 : [claim-ends-safety-margin-before-expiry] arg1 + heartbeatTimeoutSafetyMarginBlocks == ha.expiryBlock
 //@   assert call:heartbeatInactivityClaimExecutor.claimInactivity : [run-of-at-least-three] ite(walletKey in ha.failureCounter.counters, ha.failureCounter.counters[walletKey], 0) >= heartbeatConsecutiveFailureThreshold && heartbeatConsecutiveFailureThreshold >= 3
 //@   ensures [counter-transition] forall k string :: (ite(k in ha.failureCounter.counters, ha.failureCounter.counters[k], 0) == ite(k in old(ha.failureCounter.counters), old(ha.failureCounter.counters)[k], 0)) || (ghost.hbSigned && !ghost.hbUnstaking && ghost.hbProposalValid && ghost.hbActive >= heartbeatSigningMinimumActiveMembers && ha.failureCounter.counters[k] == 0) || (ghost.hbSigned && !ghost.hbUnstaking && ghost.hbProposalValid && ghost.hbActive < heartbeatSigningMinimumActiveMembers && ha.failureCounter.counters[k] == wrap_u64(ite(k in old(ha.failureCounter.counters), old(ha.failureCounter.counters)[k], 0) + 1))
+
+// ---------------------------------------------------------------------------
+// C25: one action per wallet
+
+//@ ghost actionEnded bool
+//@ assume func walletAction.execute
+//@   modifies ghost.actionEnded
+//@   ensures ghost.actionEnded
+
+//@ type walletDispatcher
+//@   property C25
+//@   guarded_by actionsMutex actions
+//@   writers actions : newWalletDispatcher walletDispatcher.dispatch
+
+// Abstract transition system of the dispatcher: A = set of busy wallet keys,
+// R[k] = number of running action goroutines of wallet k. start(k) is what
+// dispatch does in its critical section (proved below: k not in A before, in A
+// after, goroutine started); end(k) is the deferred critical section of the
+// goroutine (k removed). The invariant R[k] == (k in A ? 1 : 0) is inductive.
+//@ lemma dispatcher-start-preserves-at-most-one: forall A set[string], A2 set[string], R mapof[string]int, R2 mapof[string]int, k string :: ((forall j string :: R[j] == ite(j in A, 1, 0)) && !(k in A) && (forall j string :: (j in A2) <==> (j in A || j == k)) && (forall j string :: R2[j] == ite(j == k, R[j] + 1, R[j]))) ==> (forall j string :: R2[j] == ite(j in A2, 1, 0))
+//@   property C25
+//@ lemma dispatcher-end-preserves-at-most-one: forall A set[string], A2 set[string], R mapof[string]int, R2 mapof[string]int, k string :: ((forall j string :: R[j] == ite(j in A, 1, 0)) && R[k] >= 1 && (forall j string :: (j in A2) <==> (j in A && j != k)) && (forall j string :: R2[j] == ite(j == k, R[j] - 1, R[j]))) ==> (forall j string :: R2[j] == ite(j in A2, 1, 0))
+//@   property C25
+
+//@ func walletDispatcher.dispatch
+//@   property C25
+//@   opt lock-no-havoc 1
+//@   modifies wd.actions, alloc
+//@   ensures [busy-refused-nothing-changes] result != nil ==> wd.actions == old(wd.actions)
+//@   ensures [accepted-marks-exactly-one-free-wallet-busy] result == nil ==> (exists k string :: !(k in old(wd.actions)) && (k in wd.actions) && (forall j string :: j != k ==> ((j in wd.actions) <==> (j in old(wd.actions)))))
+//@   lit 1
+//@     requires [goroutine-started-only-for-the-slot-just-taken] (key in wd.actions) && !(key in old(wd.actions))
+//@     opt noframe 1
+//@     binds ghost.actionEnded = false
+//@     assert call:walletAction.execute : [action-executed-once-while-holding-the-slot] !ghost.actionEnded
+//@     assert call:Mutex.Lock : [slot-released-only-after-the-action-ended] ghost.actionEnded
+//@     assert call:Mutex.Unlock : [slot-released-on-every-exit] !(key in wd.actions)
